@@ -30,12 +30,19 @@ class WorkflowContext:
 
     @property
     def deterministic(self) -> DeterministicExecutor:
-        """Get the deterministic executor for this workflow context."""
-        if self._deterministic is None:
-            self._deterministic = DeterministicExecutor(
-                self.task.invocation.workflow, self.task.app
+        """
+        Get the deterministic executor of the execution that is running now.
+
+        The executor (operation counters, workflow identity) belongs to one execution of
+        the task body for one invocation: it is kept on the running invocation and not on
+        the task, whose object is shared by every execution in the process.
+        """
+        invocation = self.task.invocation
+        if invocation.wf_deterministic_executor is None:
+            invocation.wf_deterministic_executor = DeterministicExecutor(
+                invocation.workflow, self.task.app
             )
-        return self._deterministic
+        return invocation.wf_deterministic_executor
 
     @property
     def app(self) -> Pynenc:
